@@ -1674,6 +1674,9 @@ func (u *Unit) divmod(f *Frame, st *State, a, b string, ty types.Type, wantMod b
 	u.em.pre("(declare-fun smod (Int Int) Int)")
 	u.em.pre("(assert (forall ((a Int) (b Int)) (! (=> (and (>= a 0) (> b 0)) (and (= a (+ (* b (udiv a b)) (umod a b))) (<= 0 (umod a b)) (< (umod a b) b) (<= 0 (udiv a b)) (<= (udiv a b) a))) :pattern ((udiv a b)) :pattern ((umod a b)))))")
 	u.em.pre("(assert (forall ((a Int) (b Int)) (! (=> (not (= b 0)) (and (= a (+ (* b (sdiv a b)) (smod a b))) (ite (>= a 0) (and (<= 0 (smod a b)) (< (smod a b) (ite (>= b 0) b (- b)))) (and (< (- (ite (>= b 0) b (- b))) (smod a b)) (<= (smod a b) 0))) (=> (and (>= a 0) (> b 0)) (and (>= (sdiv a b) 0) (<= (sdiv a b) a))))) :pattern ((sdiv a b)) :pattern ((smod a b)))))")
+	// arithmetic lemmas (true of the integers) that the solvers do not find reliably by themselves
+	u.em.pre("(assert (forall ((k Int) (b Int)) (! (=> (and (>= k 0) (> b 0)) (and (= (umod (* k b) b) 0) (= (udiv (* k b) b) k))) :pattern ((umod (* k b) b)) :pattern ((udiv (* k b) b)))))")
+	u.em.pre("(assert (forall ((a Int) (b Int)) (! (=> (and (>= a 0) (> b 0)) (and (= (umod (+ a b) b) (umod a b)) (= (udiv (+ a b) b) (+ (udiv a b) 1)))) :pattern ((umod (+ a b) b)) :pattern ((udiv (+ a b) b)))))")
 	var q, r string
 	if isUnsigned(ty) {
 		q, r = fmt.Sprintf("(udiv %s %s)", a, b), fmt.Sprintf("(umod %s %s)", a, b)
